@@ -39,7 +39,7 @@ COMPONENTS = {
     "simulated": ["operation history (seeded)", "file object / output file in tmpfs scratch", "clock seen by zipfile/openpyxl (frozen)", "sys.argv/stdout/stderr of potable"],
     "stubbed": [],
 }
-EXPECTED_PROBES = ["same-species-set-under-both-modes", "two-live-views-different-filters", "older-view-read-after-newer-created", "empty-include-set", "empty-exclude-set",
+EXPECTED_PROBES = ["view-of-a-view", "same-species-set-under-both-modes", "two-live-views-different-filters", "older-view-read-after-newer-created", "empty-include-set", "empty-exclude-set",
                    "unknown-label-in-set", "set-container", "tabulate-through-view", "base-read-after-view", "cli-include", "cli-exclude",
                    "filter-removes-all-entries", "zero-filled-species-after-filter"]
 
@@ -68,6 +68,16 @@ def hand_delete(spec, mode, S):
                 keep.append([k, v])
         sec["entries"] = keep
     return out, removed
+
+
+def hand_delete_chain(spec, chain):
+    """Apply several filters one after another (a filtered view of a filtered view)."""
+    cur = spec
+    removed = 0
+    for mode, S in chain:
+        cur, n = hand_delete(cur, mode, S)
+        removed += n
+    return cur, removed
 
 
 # ----------------------------------------------------------------------------------------------
@@ -158,8 +168,11 @@ def gen_scenario(seed, tier="quick"):
                     rng.shuffle(S)
             name = "v%d" % nviews
             nviews += 1
-            ops.append({"op": "view", "name": name, "mode": mode, "species": S, "setkind": kind,
-                        "container": rng.choice(["list", "list", "tuple", "set"])})
+            vop = {"op": "view", "name": name, "mode": mode, "species": S, "setkind": kind,
+                   "container": rng.choice(["list", "list", "tuple", "set"])}
+            if live and rng.random() < 0.12:
+                vop["base"] = rng.choice(live)       # a filtered view of a filtered view
+            ops.append(vop)
             live.append(name)
         elif r < 0.7:
             on = rng.choice(live + ["base"]) if rng.random() < 0.85 else "base"
@@ -255,18 +268,22 @@ def execute(sc, reference=False):
         filt = {}
         for op in sc["ops"]:
             if op["op"] == "view":
-                filt[op["name"]] = (op["mode"], list(op["species"]))
+                chain = list(filt[op["base"]]) if op.get("base") in filt else []
+                filt[op["name"]] = chain + [(op["mode"], list(op["species"]))]
                 if reference:
-                    edited, removed = hand_delete(spec, op["mode"], op["species"])
+                    edited, removed = hand_delete_chain(spec, filt[op["name"]])
                     views[op["name"]] = None
                     out["ops"].append({"ok": True, "removed": removed})
                 else:
                     S = _container(op["species"], op["container"])
+                    under = views.get(op.get("base")) if op.get("base") else base
+                    if under is None:
+                        under = base
                     try:
                         if op["mode"] == "include":
-                            views[op["name"]] = FilteredConfigParser(base, include=S)
+                            views[op["name"]] = FilteredConfigParser(under, include=S)
                         else:
-                            views[op["name"]] = FilteredConfigParser(base, exclude=S)
+                            views[op["name"]] = FilteredConfigParser(under, exclude=S)
                         out["ops"].append({"ok": True})
                     except Exception as e:
                         out["ops"].append({"ok": False, "exc": type(e).__name__, "msg": str(e)[:160]})
@@ -276,8 +293,7 @@ def execute(sc, reference=False):
                     if on == "base":
                         cp = ConfigParser(io.StringIO(ini))
                     else:
-                        mode, S = filt[on]
-                        edited, _ = hand_delete(spec, mode, S)
+                        edited, _ = hand_delete_chain(spec, filt[on])
                         cp = ConfigParser(io.StringIO(mg.render_ini(edited)))
                 else:
                     cp = base if on == "base" else views[on]
@@ -513,6 +529,8 @@ def _probes(sc, ref, res, bump):
             if op.get("container") == "set":
                 bump("probe:set-container")
             bump("setkind=" + op["setkind"])
+        if op["op"] == "view" and op.get("base"):
+            bump("probe:view-of-a-view")
         if op["op"] == "view":
             order += 1
             if any(o[1] != op["mode"] and sorted(o[2]) == sorted(op["species"]) for o in live.values()):
@@ -539,7 +557,7 @@ def _probes(sc, ref, res, bump):
                         bump("tabulate-through-view-succeeds")
                         if sc["model"]["meta"]["kind"] != "pair":
                             mode, S = me[1], me[2]
-                            ed, removed = hand_delete(sc["model"], mode, S)
+                            ed, removed = hand_delete(sc["model"], mode, list(S))
                             emb = [k for s in ed["sections"] if s["name"] == "EAM-Embed" for k, _ in s["entries"]]
                             den = set()
                             for s in ed["sections"]:
@@ -622,6 +640,8 @@ def _valid(sc):
         return False
     for op in sc["ops"]:
         if op["op"] == "view":
+            if op.get("base") and op["base"] not in live:
+                return False
             live.add(op["name"])
         elif op["op"] == "drop":
             if op["name"] not in live:
